@@ -91,10 +91,10 @@ impl Monitor for C11 {
         "cases = (a) seeded random universes and (b) fan-out shapes (root or a hub solvable with k = 1..12 single requirements / one k-member union / mixed requirements+constraints on distinct packages), each solved under the manual executor with 4 release policies. The executor logs every quiescent point (solver future returned Pending) with the multiset of parked provider futures. Online monitor: at every quiescent point, every package name mentioned by dependency information already returned (root requirements and constraints; requirements and constrains of each solvable whose get_dependencies has returned) must already have a get_candidates call in the log. For fan-out shapes additionally: k get_candidates futures are parked simultaneously at the first quiescent point (after the hub's dependencies return for the hub shape). distinct = content hash; non-trivial = distinct case with a quiescent point at which >= 2 implied names existed".into()
     }
     fn cases(&self, tier: Tier) -> u64 {
-        tier.pick(30_000, 1_500_000)
+        tier.pick(240_000, 4_800_000)
     }
     fn floor(&self, tier: Tier) -> u64 {
-        tier.pick(3_000, 150_000)
+        tier.pick(12_000, 120_000)
     }
     fn generate(&self, r: &mut Rng, _tier: Tier, i: u64) -> C11Case {
         let mut policies = vec![Policy::Oldest, Policy::Newest, Policy::Random(r.next()), Policy::Random(r.next())];
